@@ -40,13 +40,15 @@ def strat1d(tier):
                     st.builds(lambda b: ("exp", b), st.one_of(gen.f(-4, -0.1), gen.f(0.1, 4))))
     mor = st.builds(lambda n, L, x0, lw: dict(kind="morph", n=n, length=L, x0=x0, law=lw[0], param=lw[1]), n, L, x0, law)
     data = st.lists(gen.sfloat(-3, 1), min_size=1, max_size=7)
-    return st.builds(lambda m, d, c: dict(mesh=m, data=d, const=c), st.one_of(uni, ref, ref, mor), data, gen.sfloat(-3, 2))
+    # the same meshes in other length units (nanometres to megametres; the origin is expressed in the same unit)
+    unit = st.one_of(st.just(1.0), st.just(1.0), st.just(1.0), gen.logf(-6, 3))
+    return st.builds(lambda m, d, c, u: dict(mesh=(m if u == 1.0 else cases.scale_mesh(m, u)), data=d, const=c), st.one_of(uni, ref, ref, mor), data, gen.sfloat(-3, 2), unit)
 
 
 def strat2d(tier):
     nmax = 12 if tier == "quick" else 40
     return st.builds(lambda nx, ny, lx, ly, c: dict(nx=nx, ny=ny, lx=lx, ly=ly, const=c),
-                     st.integers(1, nmax), st.integers(1, nmax), gen.logf(-2, 2), gen.logf(-2, 2), gen.sfloat(-3, 2))
+                     st.integers(1, nmax), st.integers(1, nmax), st.one_of(gen.logf(-2, 2), gen.logf(-9, 6)), st.one_of(gen.logf(-2, 2), gen.logf(-9, 6)), gen.sfloat(-3, 2))
 
 
 # ---------------------------------------------------------------- predicates
